@@ -79,11 +79,15 @@ def main():
         shutil.rmtree(f"/tmp/verifcopy_{name}", ignore_errors=True)
     d = os.path.join(VERIF, "seeded", name)
     os.makedirs(d, exist_ok=True)
-    shutil.copy(patch, os.path.join(d, "patch.diff"))
-    shutil.copy(demo, os.path.join(d, "demo.py"))
+    if os.path.abspath(patch) != os.path.join(d, "patch.diff"):
+        shutil.copy(patch, os.path.join(d, "patch.diff"))
+    if os.path.abspath(demo) != os.path.join(d, "demo.py"):
+        shutil.copy(demo, os.path.join(d, "demo.py"))
     md = os.path.splitext(patch)[0] + ".md"
     if os.path.exists(md):
         meta["needs"] = open(md).read()
+    elif old.get("needs"):
+        meta["needs"] = old["needs"]
     with open(os.path.join(d, "meta.json"), "w") as f:
         json.dump(meta, f, indent=1)
     print(json.dumps({k: meta[k] for k in ("name", "confirmed", "detected_by")}, indent=None))
